@@ -106,6 +106,13 @@ class Gen(object):
             return self.rng.choice(ex)
         return self.rng.choice(self.rp_pool)
 
+    def respell(self, u, p=0.06):
+        """now and then another spelling of a uuid that the schema's `format: uuid` accepts (upper case, no dashes,
+        braces, urn:uuid:) - the service stores and compares the canonical form, so these name NO provider"""
+        if u is None or self.rng.random() >= p:
+            return u
+        return self.rng.choice([u.upper(), u.replace('-', ''), '{%s}' % u, 'urn:uuid:%s' % u, u.replace('-', '').upper()])
+
     def rcs_available(self, v):
         return STD_RCS + v.custom_rcs
 
@@ -201,6 +208,7 @@ class Gen(object):
             parent = self.any_rp(v, 0.95)
             if rng.random() < 0.03:
                 parent = uuid
+            parent = self.respell(parent)
         return {'op': 'rp_create', 'mv': mv, 'uuid': uuid, 'name': name, 'parent': parent}
 
     def g_rp_update(self, v):
@@ -221,6 +229,11 @@ class Gen(object):
                 op['parent'] = cur['parent']
             else:
                 op['parent'] = self.any_rp(v, 0.95)
+                if rng.random() < 0.25 and cur:
+                    # aim at the loop check: the provider itself or something below it
+                    below = [u for u, r in v.rps.items() if r.get('root') == cur.get('root') and u != uuid]
+                    op['parent'] = rng.choice(below + [uuid])
+            op['parent'] = self.respell(op['parent'], 0.1)
         return op
 
     def g_rp_delete(self, v):
